@@ -10,9 +10,30 @@ use ndarray::Array1;
 use num_traits::{One, Zero};
 use serde_json::{json, Value};
 
-fn encode_word(enc: &Encoder, k: usize, msg: u64) -> Vec<u8> {
-    let a = Array1::from_iter((0..k).map(|i| if (msg >> i) & 1 == 1 { GF2::one() } else { GF2::zero() }));
-    enc.encode(&a).iter().map(|x| u8::from(x.is_one())).collect()
+fn bit(msg: u64, i: usize) -> GF2 {
+    if (msg >> i) & 1 == 1 {
+        GF2::one()
+    } else {
+        GF2::zero()
+    }
+}
+
+/// `layout` 0: owned standard array; 1: reversed view of the reversed data (stride -1);
+/// 2: every second element of an interleaved buffer (stride 2).
+fn encode_word(enc: &Encoder, k: usize, msg: u64, layout: usize) -> Vec<u8> {
+    use ndarray::s;
+    let out = match layout {
+        0 => enc.encode(&Array1::from_iter((0..k).map(|i| bit(msg, i)))),
+        1 => {
+            let rev = Array1::from_iter((0..k).rev().map(|i| bit(msg, i)));
+            enc.encode(&rev.slice(s![..;-1]))
+        }
+        _ => {
+            let wide = Array1::from_iter((0..2 * k).map(|i| if i % 2 == 0 { bit(msg, i / 2) } else { bit(!msg, i / 2) }));
+            enc.encode(&wide.slice(s![..;2]))
+        }
+    };
+    out.iter().map(|x| u8::from(x.is_one())).collect()
 }
 
 fn is_staircase_tail(m: &Small) -> bool {
@@ -31,6 +52,21 @@ pub fn check_matrix(m: &Small, origin: &str, acc: &mut Acc) {
     let key = format!("encoder:{}x{}:{}", r, n, m.alist_like());
     let replay = json!({"kind": "matrix", "n": n, "rows": m.rows, "origin": origin});
     let inv = m.tail_invertible();
+    // the matrix is built in four different insertion orders (adjacency lists are in insertion
+    // order, and nothing the encoder does may depend on it); order 0 is judged in full, the
+    // others must give the same verdict and the same codewords
+    let mut per_order: Vec<Option<Vec<Vec<u8>>>> = Vec::new();
+    for order in 1..4usize {
+        let ho = m.sparse_order(order);
+        let r = guard(|| Encoder::from_h(&ho).ok().map(|e| (0..(1u64 << k)).map(|msg| encode_word(&e, k, msg, (order + msg as usize) % 3)).collect::<Vec<_>>()));
+        match r {
+            Ok(x) => per_order.push(x),
+            Err(e) => {
+                acc.violate(key, format!("insertion order {}: from_h / encode panicked: {}", order, e), replay);
+                return;
+            }
+        }
+    }
     let h = m.sparse();
     let enc = match guard(|| Encoder::from_h(&h)) {
         Err(e) => {
@@ -39,6 +75,10 @@ pub fn check_matrix(m: &Small, origin: &str, acc: &mut Acc) {
         }
         Ok(Err(Error::SubmatrixNotInvertible)) => {
             acc.count("singular_tail");
+            if per_order.iter().any(|x| x.is_some()) {
+                acc.violate(key, "accepted or rejected depending on the insertion order of the entries".into(), replay);
+                return;
+            }
             if inv {
                 acc.violate(key, "from_h rejected a matrix whose last r columns are invertible".into(), replay);
             }
@@ -64,7 +104,7 @@ pub fn check_matrix(m: &Small, origin: &str, acc: &mut Acc) {
         acc.count("staircase_variant_on_general_tail");
     }
     let nm = 1u64 << k;
-    let words: Result<Vec<Vec<u8>>, String> = guard(|| (0..nm).map(|msg| encode_word(&enc, k, msg)).collect());
+    let words: Result<Vec<Vec<u8>>, String> = guard(|| (0..nm).map(|msg| encode_word(&enc, k, msg, 0)).collect());
     let words = match words {
         Ok(w) => w,
         Err(e) => {
@@ -86,6 +126,19 @@ pub fn check_matrix(m: &Small, origin: &str, acc: &mut Acc) {
         if !m.syndrome_ok(x) {
             acc.violate(key, format!("message {:b}: output {:?} violates a parity check", msg, w), replay);
             return;
+        }
+    }
+    for (o, w) in per_order.iter().enumerate() {
+        match w {
+            Some(w) if *w == words => {}
+            Some(_) => {
+                acc.violate(key, format!("the same matrix built in insertion order {} (message passed as a strided / reversed view) encodes differently", o + 1), replay);
+                return;
+            }
+            None => {
+                acc.violate(key, format!("the same matrix built in insertion order {} is rejected", o + 1), replay);
+                return;
+            }
         }
     }
     // linearity
@@ -178,7 +231,7 @@ pub fn run(run: &Run) -> i32 {
         run,
         acc,
         Coverage {
-            rule: "every binary matrix of every listed shape (all masks) plus, for r up to the bound and k<=3, the exact staircase tail with every information part and every single-bit flip of the r x r tail; for each accepted matrix ALL 2^(n-r) messages and all message pairs (linearity). Non-trivial = invertible tail and n > r.".into(),
+            rule: "every binary matrix of every listed shape (all masks) plus, for r up to the bound and k<=3, the exact staircase tail with every information part and every single-bit flip of the r x r tail; for each accepted matrix ALL 2^(n-r) messages and all message pairs (linearity); every matrix is additionally built in three scrambled insertion orders, with the messages passed as owned arrays, reversed views (stride -1) and stride-2 views, and must give the same verdict and codewords. Non-trivial = invertible tail and n > r.".into(),
             exhaustive: true,
             extra,
             graph: None,
